@@ -659,7 +659,9 @@ func verifFilterSem(t *testing.T, tier string) {
 		}
 	}
 	// fixed value lists in projections remove exactly the results whose value is not listed
-	for _, tc := range []struct{ expr, key string }{{".fullname@(Bar Foo/a=1-4)", ".fullname"}, {".name@(Foo)", ".name"}, {"f1@(v2 v1)", "f1"}, {"/a@(2)", "/a"}} {
+	for _, tc := range []struct{ expr, key string }{{".fullname@(Bar Foo/a=1-4)", ".fullname"}, {".name@(Foo)", ".name"}, {"f1@(v2 v1)", "f1"}, {"/a@(2)", "/a"},
+		// the empty string may be listed: it is the value of a missing key
+		{"f1@(\"\" v1)", "f1"}, {"/a@(2 \"\")", "/a"}, {"nosuchkey@(\"\")", "nosuchkey"}, {"/zz@(\"\" 1)", "/zz"}} {
 		var pp ProjectionParser
 		f, _ := NewFilter("*")
 		if _, err := pp.Parse(tc.expr, f); err != nil {
@@ -667,6 +669,11 @@ func verifFilterSem(t *testing.T, tier string) {
 			continue
 		}
 		list := strings.Fields(strings.Trim(tc.expr[strings.Index(tc.expr, "@")+1:], "()"))
+		for i := range list {
+			if list[i] == "\"\"" {
+				list[i] = ""
+			}
+		}
 		for _, res := range results {
 			n++
 			val := string(verifRefKey(res, tc.key))
@@ -682,7 +689,7 @@ func verifFilterSem(t *testing.T, tier string) {
 			}
 		}
 	}
-	fmt.Printf("BOUNDED-RESULT {\"cases\": %d, \"failures\": %d, \"bound\": \"%d expression trees over 13 atoms (depth <= 3, NOT/AND/OR, juxtaposition and AND, quoted and bare words) x 36 results with 0,1,2,3,31,32,33,40,63,64,65,96 measurements: Test per measurement, All, Any, Apply, Match leaves the result untouched; 4 fixed-list projections\", \"exhaustive\": false}\n", n, fails, len(exprs))
+	fmt.Printf("BOUNDED-RESULT {\"cases\": %d, \"failures\": %d, \"bound\": \"%d expression trees over 13 atoms (depth <= 3, NOT/AND/OR, juxtaposition and AND, quoted and bare words) x 36 results with 0,1,2,3,31,32,33,40,63,64,65,96 measurements: Test per measurement, All, Any, Apply, Match leaves the result untouched; 8 fixed-list projections (incl. lists with the empty value and missing keys)\", \"exhaustive\": false}\n", n, fails, len(exprs))
 }
 
 func verifFilterSyntax(t *testing.T, tier string) {
